@@ -224,7 +224,7 @@ func c04Writers(c *eng.Ctx, r *eng.Report) {
 		"accountObject.dbErr": "memoised read error", "accountObject.trie": "storage trie handle (committed content; written only by lifecycle)", "accountObject.cachedLock": "mutex",
 		"accountObject.deleted": "lifecycle flag set by Finalise/Commit", "accountObject.onDirty": "dirty-notification hook (mirrors accountObjectsDirty)",
 		"Account.Root": "storage root (lifecycle: updateRoot/CommitTrie)",
-		"AccountDB.db":  "database handle", "AccountDB.trie": "account trie (lifecycle)", "AccountDB.accountObjectsLock": "mutex", "AccountDB.dbErr": "memoised read error",
+		"AccountDB.db": "database handle", "AccountDB.trie": "account trie (lifecycle)", "AccountDB.accountObjectsLock": "mutex", "AccountDB.dbErr": "memoised read error",
 		"AccountDB.nextRevisionID": "monotone id source", "AccountDB.thash": "per-transaction context (Prepare)", "AccountDB.bhash": "per-transaction context (Prepare)", "AccountDB.txIndex": "per-transaction context (Prepare)",
 	}
 	for t := range journaledFields {
@@ -306,7 +306,7 @@ func c04Journaled(c *eng.Ctx, r *eng.Report) {
 	}
 	// lifecycle callers that may use raw setters without journaling, with reason
 	lifecycle := map[string]string{
-		"(*storage/account.AccountDB).createObject|(*storage/account.accountObject).setNonce":      "applied to an object allocated in the same function and not yet published",
+		"(*storage/account.AccountDB).createObject|(*storage/account.accountObject).setNonce":         "applied to an object allocated in the same function and not yet published",
 		"(*storage/account.AccountDB).getAccountObject|(*storage/account.AccountDB).setAccountObject": "publishes an object just loaded from the trie (no state change)",
 		"(*storage/account.AccountDB).setBalance|(*storage/account.accountObject).setData":            "setBalance is itself a raw setter (paired with suicideChange); its callers are checked",
 	}
